@@ -2,6 +2,7 @@ package sim
 
 import (
 	"fmt"
+	"os"
 	"log"
 	mrand "math/rand"
 	"reflect"
@@ -29,6 +30,7 @@ func SnapshotGlobals(deep bool) *GlobalsSnapshot {
 		v := reflect.ValueOf(g.Ptr).Elem()
 		var h uint64
 		if deep {
+			deepBudget = 4 << 20
 			h = deepHash(0, v, 0)
 		} else {
 			h = shallowHash(v)
@@ -41,8 +43,34 @@ func SnapshotGlobals(deep bool) *GlobalsSnapshot {
 	snap.Hashes = append(snap.Hashes, stdLogHash())
 	snap.Names = append(snap.Names, "standard library math/rand: the process-wide source (seeded or drawn from)")
 	snap.Hashes = append(snap.Hashes, stdRandEpoch())
+	if stdoutFile != nil {
+		var n int64
+		if fi, err := stdoutFile.Stat(); err == nil {
+			n = fi.Size()
+		}
+		snap.Names = append(snap.Names, "process standard output (os.Stdout): bytes written to it")
+		snap.Hashes = append(snap.Hashes, uint64(n))
+	}
 	return snap
 }
+
+// WatchStdout points os.Stdout at an unlinked scratch file for the rest of the process, so
+// that anything the library prints there (it has no business to) shows up as growth of that
+// file in the globals snapshot. Worker and replay processes call it before their first run.
+func WatchStdout() {
+	if stdoutFile != nil {
+		return
+	}
+	f, err := os.CreateTemp("", "simstdout")
+	if err != nil {
+		return
+	}
+	_ = os.Remove(f.Name())
+	stdoutFile = f
+	os.Stdout = f
+}
+
+var stdoutFile *os.File
 
 // The process-wide math/rand source cannot be inspected, only drawn from. The harness never
 // uses it for anything else: it seeds it once and keeps a private twin in step, one draw per
@@ -121,10 +149,31 @@ func shallowHash(v reflect.Value) uint64 {
 	return HashBytes(0, b)
 }
 
+// deepBudget bounds the work of one variable's deep hash (elements visited + bytes hashed): a
+// package-level list that keeps whole emulator Systems alive (tens of MiB each) must not turn
+// every snapshot into minutes. Beyond the budget only lengths and addresses are hashed, which
+// still changes when such a structure grows or is re-pointed.
+var deepBudget int
+
 func deepHash(h uint64, v reflect.Value, depth int) uint64 {
 	if depth > 12 {
 		return HashU64(h, 0xdeadbeef)
 	}
+	if deepBudget <= 0 {
+		switch v.Kind() {
+		case reflect.Ptr, reflect.Map, reflect.Slice, reflect.Chan, reflect.Func, reflect.UnsafePointer:
+			if v.IsNil() {
+				return HashU64(h, 0)
+			}
+			if v.Kind() == reflect.Slice || v.Kind() == reflect.Map {
+				h = HashU64(h, uint64(v.Len()))
+			}
+			return HashU64(h, uint64(v.Pointer()))
+		case reflect.Array, reflect.Struct, reflect.Interface:
+			return HashU64(h, 0xb0d9e7)
+		}
+	}
+	deepBudget--
 	switch v.Kind() {
 	case reflect.Bool:
 		if v.Bool() {
@@ -158,8 +207,20 @@ func deepHash(h uint64, v reflect.Value, depth int) uint64 {
 	case reflect.Array, reflect.Slice:
 		n := v.Len()
 		h = HashU64(h, uint64(n))
-		if v.Type().Elem().Kind() == reflect.Uint8 && v.Kind() == reflect.Array && v.CanAddr() {
-			b := unsafe.Slice((*byte)(unsafe.Pointer(v.UnsafeAddr())), n)
+		if v.Type().Elem().Kind() == reflect.Uint8 && (v.Kind() == reflect.Slice || v.CanAddr()) {
+			var b []byte
+			if v.Kind() == reflect.Slice {
+				b = v.Bytes()
+			} else {
+				b = unsafe.Slice((*byte)(unsafe.Pointer(v.UnsafeAddr())), n)
+			}
+			if len(b) > deepBudget {
+				if deepBudget < 0 {
+					deepBudget = 0
+				}
+				b = b[:deepBudget]
+			}
+			deepBudget -= len(b)
 			return HashBytes(h, b)
 		}
 		for i := 0; i < n; i++ {
